@@ -2,3 +2,7 @@ package branch_control
 
 const verifBoundPat = 4
 const verifBoundStr = 4
+const verifBoundFoldPat = 4
+const verifBoundRulePat = 3
+const verifBoundHistPat = 2
+const verifBoundReq = 3
